@@ -47,7 +47,7 @@ def one(kind, s, props):
     return s, [(p, rc, f) for p, rc, f in res if rc != 0]
 
 
-FAMILIES = [("C01", "C04", "C05", "C06", "C07", "C13", "C14", "C15"), ("C03", "C08", "C09", "C10", "C16", "C17"), ("C11", "C12", "C19"), ("C02", "C18", "C20"), ("C14", "C04", "C07")]
+FAMILIES = [("C01", "C04", "C05", "C06", "C07", "C13", "C14", "C15", "C11"), ("C03", "C08", "C09", "C10", "C16", "C17", "C04", "C07", "C13", "C15"), ("C11", "C12", "C19", "C04"), ("C02", "C18", "C20"), ("C14", "C04", "C07")]
 
 
 def near_props(seed, props):
